@@ -68,6 +68,10 @@ def run(tier, seed):
         rs.append(s)
     for i in range(0, n, 4000):
         chk.machine_family("random-%d" % (i // 4000), rs[i:i + 4000], opts=OPTS, features=features)
+    # unification level: spec/UnifyGen.tla (GetValueIsResolve on the model) and every start state
+    # replayed with get_value read at the yield and the saved values re-read after exhaustion/close/drop
+    from . import c02
+    c02.unify_family(chk, tier, seed, c15=True)
     chk.assumptions = ["to_python of improper lists and of '.' terms of other arities is unspecified and not compared",
                        "non-ground answers are compared through the driver's walker only; the no-variable-inside rule is applied to ground answers, as the property states"]
     return chk.finish()
